@@ -162,6 +162,42 @@ fn table(max_len: usize) -> Vec<VerReq> {
     out
 }
 
+/// sequences in which a list extends, truncates or repeats the previous one (state carried between requests)
+fn sequence() -> impl proptest::strategy::Strategy<Value = Chunk> {
+    use proptest::prelude::*;
+    let val = prop::sample::select(VALUES.to_vec());
+    let list = proptest::collection::vec(val.clone(), 0..=6);
+    let srv = prop_oneof![4 => Just(Srv::Absent), 2 => Just(Srv::Correct), 1 => Just(Srv::Wrong), 1 => any::<u16>().prop_map(Srv::BitFlip), 1 => prop::sample::select(vec![0u8, 4, 28, 31, 33, 36, 64]).prop_map(Srv::Len)];
+    // op: 0 fresh list, 1 previous + suffix, 2 prefix of previous, 3 previous repeated, 4 previous with draft-13 inserted
+    let step = (0u8..5, list, proptest::collection::vec(val, 1..=3), any::<u8>(), srv);
+    proptest::collection::vec(step, 2..=24).prop_map(|steps| {
+        let mut reqs: Vec<VerReq> = vec![];
+        let mut prev: Vec<u32> = vec![];
+        for (op, fresh, suffix, cut, srv) in steps {
+            let mut l = match op {
+                0 => fresh,
+                1 => {
+                    let mut p = prev.clone();
+                    p.extend(suffix);
+                    p
+                }
+                2 => prev[..(cut as usize % (prev.len() + 1))].to_vec(),
+                3 => prev.clone(),
+                _ => {
+                    let mut p = prev.clone();
+                    let at = cut as usize % (p.len() + 1);
+                    p.insert(at, VER_DRAFT13);
+                    p
+                }
+            };
+            l.truncate(8);
+            prev = l.clone();
+            reqs.push(VerReq { vers: Some(l), srv });
+        }
+        Chunk { reqs }
+    })
+}
+
 pub fn run(ctx: &mut Ctx) -> Vec<Violation> {
     install_logger(log::LevelFilter::Off);
     let max_len = 6; // the full table is cheap enough for both tiers
@@ -176,7 +212,12 @@ pub fn run(ctx: &mut Ctx) -> Vec<Violation> {
         ));
         ctx.sample("table", 3, &chunks[chunks.len() / 2].reqs.iter().take(3).collect::<Vec<_>>());
     }
-    v
+    let mut out = v;
+    out.extend(run_prop(ctx, "sequences", ctx.tier.pick(6_000, 60_000), 300, sequence(), |ctx, c| {
+        ctx.sample("sequences", 2, &c.reqs.iter().take(4).collect::<Vec<_>>());
+        check_chunk(ctx, c)
+    }));
+    out
 }
 
 pub fn replay(ctx: &mut Ctx, _sub: &str, case: &Value) -> Res {
